@@ -47,15 +47,16 @@ inductive Tree where
 abbrev Items := List (Key × Tree)
 
 /-- Which behaviour of the source is mirrored. `pinned`: /repo before the C01/C07 patches;
-`patched`: with fixes/C01-F02, C01-F03, C07-F17 applied. -/
+`patched`: with fixes/C01-F02, C01-F03, C01-F33, C07-F17 applied. -/
 structure Cfg where
   reindexOnMutate : Bool     -- F03: list write primitive / `__delitem__` re-index; negative index normalised
   reindexOnReorder : Bool    -- F02: `sort` / `reverse` re-index
   listCloneSealed : Bool     -- F17: `List._sym_clone` passes `sealed`
+  detachOnRemove : Bool      -- F33: `del l[i]` / `pop` / `remove` / `clear` / `popitem` detach what they remove
   deriving DecidableEq, Repr
 
-def Cfg.pinned : Cfg := ⟨false, false, false⟩
-def Cfg.patched : Cfg := ⟨true, true, true⟩
+def Cfg.pinned : Cfg := ⟨false, false, false, false⟩
+def Cfg.patched : Cfg := ⟨true, true, true, true⟩
 
 /-- The test classes of the harness: class `c` has fields `k0 … k(c+1)`, all `Any`, default None. -/
 def clsFields (cls : Nat) : List Key := (List.range (cls + 2)).map Key.s
@@ -140,6 +141,13 @@ mutual
     | (k, c) :: r => (k, c.seal s) :: sealItems s r
 end
 
+def renumberFrom (n : Nat) : Items → Items
+  | [] => []
+  | (_, c) :: r => (Key.i n, c) :: renumberFrom (n + 1) r
+
+/-- list payload: the key of the i-th item is `i`. -/
+def renumber (its : Items) : Items := renumberFrom 0 its
+
 /-- The `sealed` flag a clone is constructed with: `Dict._sym_clone` and `Object._sym_clone` pass
 `sealed=self._sealed`; `List._sym_clone` does not (F17) unless patched. -/
 def cloneSealed (cfg : Cfg) (m : Meta) : Bool :=
@@ -158,7 +166,12 @@ mutual
     | .leaf a => (.leaf a, next)
     | .node m its =>
       let r := cloneItems cfg deep (next + 1) next p its
-      ((Tree.node { m with id := next, parent := par, path := p, sealed := false } r.1).seal (cloneSealed cfg m), r.2)
+      -- `List(source)` appends item by item and appending MISSING is a no-op (list.py:402-405):
+      -- placeholders left by writes without notification are not copied.
+      let its' := match m.kind with
+        | .list => setPathItems p (renumber (r.1.filter (fun kv => !kv.2.isMissing)))
+        | _ => r.1
+      ((Tree.node { m with id := next, parent := par, path := p, sealed := false } its').seal (cloneSealed cfg m), r.2)
   def cloneItems (cfg : Cfg) (deep : Bool) (next : Nat) (h : Nat) (p : List Key) : Items → Items × Nat
     | [] => ([], next)
     | (k, c) :: r =>
@@ -191,13 +204,6 @@ def setKey (k : Key) (v : Tree) : Items → Items
 def eraseKey (k : Key) : Items → Items
   | [] => []
   | (k', c) :: r => if k' = k then r else (k', c) :: eraseKey k r
-
-def renumberFrom (n : Nat) : Items → Items
-  | [] => []
-  | (_, c) :: r => (Key.i n, c) :: renumberFrom (n + 1) r
-
-/-- list payload: the key of the i-th item is `i`. -/
-def renumber (its : Items) : Items := renumberFrom 0 its
 
 def insertAt (n : Nat) (v : Tree) (its : Items) : Items :=
   renumber (its.take n ++ [(Key.i 0, v)] ++ its.drop n)
@@ -260,7 +266,8 @@ end Forest
 /-! ### Values offered to operations -/
 
 inductive VE where
-  | atom (a : Atom)                 -- `opaque _`: a fresh non-symbolic object
+  | atom (a : Atom)                 -- a leaf value as it is (an `opaque i` is that very object)
+  | fresh                           -- a fresh non-symbolic object
   | node (kind : Kind) (sealed accW part : Bool) (items : List (Key × VE))
   | ref (id : Nat)                  -- an existing node object
   deriving Repr, Inhabited
@@ -271,10 +278,12 @@ def VE.isMissing : VE → Bool
 
 /-- `_relocate_if_symbolic` (base.py:1164-1192) for an existing node object offered as a value:
 clone (shallow) when the node believes it has a parent and is not believed to be already at this
-very location, otherwise move the very node; then overwrite its beliefs. For attribute
+very location, otherwise move the very node; then overwrite its beliefs. `pending` is the
+old value of the slot being written by `Dict._set_item_without_permission_check`: it has just
+been detached (parent None) but still occupies the slot, so offering it moves it. For attribute
 containers of objects the identity test `value.sym_parent is not self` compares the owner object
 with the attribute dict and is always true (`holderObj`). -/
-def relocateRef (cfg : Cfg) (f : Forest) (par : Option Nat) (holderObj : Bool) (p : List Key) (id : Nat) :
+def relocateRef (cfg : Cfg) (f : Forest) (pending : Option Nat) (par : Option Nat) (holderObj : Bool) (p : List Key) (id : Nat) :
     Forest × Tree :=
   match f.find? id with
   | none => (f, .leaf .none)
@@ -282,7 +291,9 @@ def relocateRef (cfg : Cfg) (f : Forest) (par : Option Nat) (holderObj : Bool) (
   | some (.node m its) =>
     if m.parent.isNone || (!holderObj && m.parent == par && m.path == p) then
       let t := ((Tree.node m its).setPath p).setParent par
-      if f.isRoot id then (f.removeRoot id, t) else ({ f with aliased := true }, t)
+      if f.isRoot id then (f.removeRoot id, t)
+      else if pending == some id then (f, t)     -- the value being replaced: it leaves its slot in this very call
+      else ({ f with aliased := true }, t)
     else
       let c := (Tree.node m its).clone cfg false f.nextId par p
       ({ f with nextId := c.2 }, c.1)
@@ -294,34 +305,38 @@ mutual
   /-- Construction from a (nested) value: `from_json` conversion of plain containers and the
   constructors `pg.Dict(...)`, `pg.List(...)`, `Cls(...)`; existing node objects inside go
   through `relocateRef`. The result is built for the destination (`par`, `p`). -/
-  def evalVE (cfg : Cfg) (f : Forest) (par : Option Nat) (holderObj : Bool) (p : List Key) : VE → Forest × Tree
-    | .atom (.opaque _) => ({ f with nextId := f.nextId + 1 }, .leaf (.opaque f.nextId))
+  def evalVE (cfg : Cfg) (f : Forest) (pending : Option Nat) (par : Option Nat) (holderObj : Bool) (hpart : Bool) (p : List Key) : VE → Forest × Tree
+    | .fresh => ({ f with nextId := f.nextId + 1 }, .leaf (.opaque f.nextId))
     | .atom a => (f, .leaf a)
-    | .ref id => relocateRef cfg f par holderObj p id
+    | .ref id => relocateRef cfg f pending par holderObj p id
     | .node kind sl aw pt items =>
       let id := f.nextId
       let isObj := match kind with | .obj _ => true | _ => false
-      let r := evalItems cfg { f with nextId := id + 1 } id isObj p items
+      -- a plain container converted by `from_json` inherits `allow_partial` of its holder
+      -- (`accepts_partial(self)`, dict.py:591 / list.py:438); a constructed one keeps its own.
+      let pt := if par.isSome && !sl && aw && !pt && !isObj then hpart else pt
+      let r := evalItems cfg { f with nextId := id + 1 } pending id isObj pt p items
       let its := match kind with
         | .obj cls => normObjItems cls r.2
         | .list => renumber r.2
         | .dict => r.2
       let t := Tree.node { id := id, parent := par, path := p, kind := kind, sealed := false, accW := aw, part := pt } its
       (r.1, if sl then t.seal true else t)
-  def evalItems (cfg : Cfg) (f : Forest) (h : Nat) (holderObj : Bool) (p : List Key) : List (Key × VE) → Forest × Items
+  def evalItems (cfg : Cfg) (f : Forest) (pending : Option Nat) (h : Nat) (holderObj : Bool) (hpart : Bool) (p : List Key) : List (Key × VE) → Forest × Items
     | [] => (f, [])
     | (k, v) :: r =>
-      let a := evalVE cfg f (some h) holderObj (p ++ [k]) v
-      let b := evalItems cfg a.1 h holderObj p r
+      let a := evalVE cfg f pending (some h) holderObj hpart (p ++ [k]) v
+      let b := evalItems cfg a.1 pending h holderObj hpart p r
       (b.1, (k, a.2) :: b.2)
 end
 
 inductive Err where
-  | index | key | value | type | perm | attr
+  | index | key | value | type | perm | attr | assertion
   deriving DecidableEq, Repr, Inhabited
 
 def Err.name : Err → String
   | .index => "IndexError" | .key => "KeyError" | .value => "ValueError"
   | .type => "TypeError" | .perm => "WritePermissionError" | .attr => "AttributeError"
+  | .assertion => "AssertionError"
 
 end Pg.Sym
